@@ -41,6 +41,8 @@ THEOREMS = ['C11_inverse_den', 'C11_inverse_complcell_rejects',
             'C11_get_ast_accepts_iff',
             'C11_handover_no_complement', 'C11_handover_loop',
             'C11_deck_end_to_end',
+            'C11_written_dichotomy', 'C11_rejected_iff_nested',
+            'C11_get_ast2_eq_bounded',
             'C11_nested_refuted']
 TRUSTED = [
     'hand-written model coq/C11/Model.v: lexer + pushdown precedence parser '
@@ -147,8 +149,8 @@ def h_res(out):
     return ERR_CODE[out[1]]
 
 
-def h_str(text):
-    acc = 7
+def h_str(text, seed=7):
+    acc = seed
     for ch in text:
         acc = (acc * 131 + ord(ch)) % FP_P
     return acc
@@ -610,6 +612,122 @@ def sweep_expr(res, ref, e, text, out, origin):
     return True
 
 
+# ---- the code-shaped model (coq/C11/Regex.v), step by step -----------------
+ALPHA_X = '12-#(): .^_*'       # MCNP alphabet + the private characters
+ALPHA_P = '12-+.():*^_'        # what normalize() hands to the PEG
+
+
+def regex_steps():
+    import MIP.geom.parsegeom as pg
+    return [
+        ('strip', lambda t: t.strip()),
+        ('re_compl_cell', lambda t: pg.re_compl_cell.sub(r' ^(\1)', t)),
+        ('re_compl_surf', lambda t: pg.re_compl_surf.sub(r' _(', t)),
+        ('re_union', lambda t: pg.re_union.sub(':', t)),
+        ('re_pareno', lambda t: pg.re_pareno.sub('(', t)),
+        ('re_parenc', lambda t: pg.re_parenc.sub(')', t)),
+        ('re_pareno_before', lambda t: pg.re_pareno_before.sub(r'\1 (', t)),
+        ('re_parenc_after', lambda t: pg.re_parenc_after.sub(r') \1', t)),
+        ('re_spaces', lambda t: pg.re_spaces.sub('*', t)),
+        ('normalize', pg.normalize),
+    ]
+
+
+def step_job(job):
+    '''fingerprints of the ten string functions on prefix + s, |s| <= n'''
+    prefix, n = job
+    steps = regex_steps()
+    sums = [0] * len(steps)
+    for k in range(n + 1):
+        for tup in itertools.product(ALPHA_X, repeat=k):
+            text = prefix + ''.join(tup)
+            hin = h_str(text)
+            for i, (_name, fun) in enumerate(steps):
+                sums[i] = (sums[i] + hin * h_str(fun(text), 11)) % FP_P
+    return sums
+
+
+def impl_peg(text):
+    '''the PEG of geom.ebnf + GeomSemantics on an already normalized text'''
+    import MIP.geom.parsegeom as pg
+    import tatsu.exceptions
+    from MIP.geom.semantics import GeomSemantics
+    try:
+        return ('ok', canon(pg.parser.parse(text, semantics=GeomSemantics())))
+    except tatsu.exceptions.ParseException:
+        return ('err', 'EParse')
+    except AttributeError:
+        return ('err', 'EAttribute')
+
+
+def peg_job(job):
+    import re
+    prefix, n = job
+    cell = re.compile(r'_\d')
+    total = count = 0
+    for k in range(n + 1):
+        for tup in itertools.product(ALPHA_P, repeat=k):
+            text = prefix + ''.join(tup)
+            if cell.search(text):
+                continue
+            out = impl_peg(text)
+            count += out[0] == 'ok'
+            total = (total + h_str(text) * h_res(out)) % FP_P
+    return total, count
+
+
+def run_regex_tie(res, quick, pool):
+    '''each re.sub of normalize() and the PEG against their explicit models
+    of coq/C11/Regex.v, on every short string incl. the private characters'''
+    n = 3 if quick else 4
+    jobs = [(a, n) for a in ALPHA_X]
+    sums = pool.map(step_job, jobs)
+    names = [name for name, _ in regex_steps()]
+    cases = [cpair(common.cnat(k), cstr(pre), cn(sums[j][k]))
+             for j, (pre, _) in enumerate(jobs) for k in range(len(names))]
+    check = (f'(fun c : nat * string * N => let \'(k, p, h) := c in '
+             f'N.eqb (step_fp k p {n}) h)')
+    bad, errs = common.run_case_files('c11_steps', HEADER, 'nat * string * N',
+                                      check, cases, chunk=10)
+    n_str = sum(len(ALPHA_X) ** k for k in range(1, n + 2))
+    res.obligation(f'tie:regex steps (strip, the eight re.sub of normalize() '
+                   f'and normalize itself vs Regex.v on all {n_str} non-empty '
+                   f'strings of length <= {n + 1} over {ALPHA_X!r})',
+                   not bad and not errs,
+                   f'differing: {[(names[i % len(names)], jobs[i // len(names)][0]) for i in bad][:6]} {errs[:1]}')
+    for idx in bad[:4]:
+        name = names[idx % len(names)]
+        res.violation('correspondence',
+                      f'regex step {name}: model and implementation differ '
+                      f'on strings starting with {jobs[idx // len(names)][0]!r}',
+                      {'theorem_or_correspondence': 'tie:regex steps',
+                       'input': {'step': name,
+                                 'prefix': jobs[idx // len(names)][0]}},
+                      found_input=False)
+    res.evaluations += n_str * len(names)
+    m = 4 if quick else 5
+    pjobs = [(a, m) for a in ALPHA_P]
+    psums = pool.map(peg_job, pjobs)
+    pcases = [cpair(cstr(pre), cn(tot)) for (pre, _), (tot, _) in
+              zip(pjobs, psums)]
+    pcheck = (f'(fun c : string * N => N.eqb (peg_fp (fst c) {m}) (snd c))')
+    bad, errs = common.run_case_files('c11_peg', HEADER, 'string * N', pcheck,
+                                      pcases, chunk=1)
+    p_str = sum(len(ALPHA_P) ** k for k in range(1, m + 2))
+    res.obligation(f'tie:peg (geom.ebnf + GeomSemantics vs Regex.peg_start on '
+                   f'all {p_str} non-empty strings of length <= {m + 1} over '
+                   f'{ALPHA_P!r}, {sum(c for _, c in psums)} accepted)',
+                   not bad and not errs,
+                   f'buckets differing: {[pjobs[i][0] for i in bad]} {errs[:1]}')
+    for idx in bad[:4]:
+        res.violation('correspondence',
+                      'PEG: model peg_start and the grammar differ on strings '
+                      f'starting with {pjobs[idx][0]!r}',
+                      {'theorem_or_correspondence': 'tie:peg',
+                       'input': {'prefix': pjobs[idx][0]}}, found_input=False)
+    res.evaluations += p_str
+
+
 class Rec:
     '''picklable stand-in for common.Result inside worker processes'''
 
@@ -772,6 +890,9 @@ def run(res, tier, seed, proofs_ok):
     procs = max(1, min(8, (os.cpu_count() or 2) - 1))
     with multiprocessing.get_context('fork').Pool(procs) as pool:
         results = pool.map(exhaustive_job, jobs, chunksize=2)
+        t1 = time.time()
+        run_regex_tie(res, quick, pool)
+        timings['regex-steps+peg'] = time.time() - t1
     n_exh = {'A': len(short), 'B': 0}
     n_acc = {'A': 0, 'B': 0}
     for job, r in zip(jobs, results):
@@ -787,7 +908,7 @@ def run(res, tier, seed, proofs_ok):
             res.violation(*args, **kwargs)
         extra = res.extra.setdefault('accepted_not_wellformed_samples', [])
         extra.extend(r['samples'][:max(0, 12 - len(extra))])
-    timings['exhaustive-impl'] = time.time() - t0
+    timings['exhaustive-impl'] = time.time() - t0 - timings['regex-steps+peg']
     t0 = time.time()
     for dom, what in (('A', f'length <= {max_len} over {ALPHABET3!r}'),
                       ('B', f'length 7 over {ALPHABET!r}')):
@@ -817,6 +938,27 @@ def run(res, tier, seed, proofs_ok):
                     text = pre + ''.join(tup)
                     explicit.add(text, impl_get_ast(text),
                                  'exhaustive-bucket')
+    if not quick:
+        # the two models on the whole thorough domain (RegexProofs.v proves
+        # their equality for length <= 5; here by computation per bucket)
+        for dom, expr in (('A', f'models_agree_upto alpha3 p {max_len - 2}'),
+                          ('B', 'models_agree_exact alpha p 4')):
+            prefixes = [job[1] for job in jobs if job[3] == dom]
+            bad, errs = common.run_case_files(
+                f'c11_agree{dom}', HEADER, 'string', f'(fun p : string => {expr})',
+                [cstr(pre) for pre in prefixes], chunk=7 if dom == 'A' else 12)
+            res.obligation(f'models: get_ast2 (regex steps + PEG) = get_ast '
+                           f'(lexer + automaton) on every string of domain '
+                           f'{dom} ({n_exh[dom]} strings)', not bad and not errs,
+                           f'buckets differing: {[prefixes[i] for i in bad]} '
+                           f'{errs[:1]}')
+            for idx in bad[:3]:
+                res.violation('proof-obligation',
+                              'the two models of get_ast differ on strings '
+                              f'starting with {prefixes[idx]!r}',
+                              {'theorem_or_correspondence': 'models agree',
+                               'input': {'prefix': prefixes[idx]}},
+                              found_input=False)
     res.extra['exhaustive'] = True
     res.extra['exhaustive_domain'] = (
         f'all {n_exh["A"]} strings of length <= {max_len} over {ALPHABET3!r}'
